@@ -249,6 +249,13 @@ pub fn gen_session(prop: &str, seed: u64, profile: u8, faults: bool) -> Case {
         let mut pre = walk(&mut rng, &root, pre_n);
         let mut root = root;
         let mut class = if pre.len() > 4 { class.max(1) } else { class };
+        if rng.chance(1, 10) {
+            let pl = rng.below(3);
+            let ts = rng.range(4, 9) as usize;
+            if let Some(l) = shuffle_line(&mut rng, &root, pl, ts) {
+                pre = l;
+            }
+        }
         if rng.chance(1, 15) {
             let (f, m) = *rng.pick(PERPETUALS);
             root = format!("fen {}", f);
@@ -319,6 +326,97 @@ pub fn gen_session(prop: &str, seed: u64, profile: u8, faults: bool) -> Case {
     case
 }
 
+/// Unstructured sessions: a random walk over the command alphabet (any order, pipelined or awaited), the only care
+/// taken being that the script never waits for the end of a search nobody will stop.
+pub fn gen_chaos(prop: &str, seed: u64) -> Case {
+    let mut rng = Rng::new(seed, 0xc4a05);
+    let mut case = Case::new(prop, "session-chaos", seed, Mode::Session);
+    swarm_params(&mut rng, &mut case);
+    let r = loop {
+        let r = rng.pick(ROOTS);
+        if r.class != 3 {
+            break r;
+        }
+    };
+    let pre_n = if rng.chance(1, 2) { 0 } else { rng.below(8) };
+    let pre = walk(&mut rng, r.fen, pre_n);
+    let class = if pre.len() > 4 { r.class.max(1) } else { r.class };
+    case.push(GK::NewGame { root: root_cmd(r), pre });
+    let mut unbounded = false; // a search may be running that only a stop ends
+    let mut asked = false; // a `go` was sent since the script last waited for a bestmove
+    let n = rng.range(8, 30);
+    for _ in 0..n {
+        match rng.below(100) {
+            0..=19 => case.push(GK::PosCur),
+            20..=29 => {
+                case.raw(format!("go depth {}", rng.range(1, max_depth_for(class))));
+                asked = true;
+            }
+            30..=36 => {
+                let polls = rng.log_uniform(1, 3_000);
+                case.raw(format!("go movetime {}", movetime_for(&case, polls)));
+                asked = true;
+            }
+            37..=40 => {
+                let polls = rng.log_uniform(1, 3_000);
+                let want = movetime_for(&case, polls) - 5;
+                let own = rng.log_uniform(1_000, 600_000u64.min(50 * (want + 155)));
+                case.push(GK::GoClock { own, own_inc: (want + 155).saturating_sub(own / 50), opp: rng.log_uniform(1, 600_000), opp_inc: rng.below(2_000) });
+                asked = true;
+            }
+            41..=46 => {
+                case.raw("go infinite");
+                unbounded = true;
+                asked = true;
+            }
+            47..=58 => {
+                case.raw("stop");
+                unbounded = false;
+            }
+            59..=68 => case.raw("isready"),
+            69..=72 => {
+                case.raw("ucinewgame");
+                unbounded = false;
+            }
+            73..=76 => case.raw("show"),
+            77..=79 => {
+                if !unbounded {
+                    case.raw("wait");
+                }
+            }
+            80..=87 => {
+                if !unbounded && asked {
+                    case.push(GK::AwaitBest);
+                    asked = false;
+                }
+            }
+            88..=90 => {
+                if !unbounded {
+                    case.push(GK::AwaitReady);
+                }
+            }
+            91..=94 => case.push(GK::Advance { best: rng.chance(2, 3), replies: vec![rng.next() as u32] }),
+            95..=96 => {
+                let o = rng.pick(ROOTS);
+                if o.class != 3 {
+                    case.push(GK::NewGame { root: root_cmd(o), pre: vec![] });
+                }
+            }
+            97 => case.push(GK::AfterPolls(rng.log_uniform(1, 2_000))),
+            _ => case.push(GK::Delay(rng.log_uniform(1_000, 20_000_000))),
+        }
+    }
+    if unbounded {
+        case.raw("stop");
+    }
+    if rng.chance(1, 2) {
+        case.raw("quit");
+    } else {
+        case.push(GK::Close);
+    }
+    case
+}
+
 /// Direct-call histories: one table shared by a seeded sequence of (position, depth limit, stop poll) items.
 pub fn gen_direct_history(prop: &str, seed: u64, faults: bool) -> Case {
     let mut rng = Rng::new(seed, 0x06);
@@ -340,6 +438,14 @@ pub fn gen_direct_history(prop: &str, seed: u64, faults: bool) -> Case {
         let n_walk = rng.below(24);
         let mut line = walk(&mut rng, &root, n_walk);
         let mut at = rng.below(line.len() as u64 + 1) as usize;
+        if rng.chance(1, 8) {
+            let pl = rng.below(4);
+            let ts = rng.range(4, 10) as usize;
+            if let Some(l) = shuffle_line(&mut rng, &root, pl, ts) {
+                at = l.len() - rng.below(3).min(l.len() as u64 - 1) as usize;
+                line = l;
+            }
+        }
         let (root, class) = if rng.chance(1, 12) {
             // a perpetual-check line: forced single replies that repeat the position (root repetition filter)
             let (f, m) = *rng.pick(PERPETUALS);
@@ -358,7 +464,7 @@ pub fn gen_direct_history(prop: &str, seed: u64, faults: bool) -> Case {
             } else {
                 None
             };
-            case.items.push(DItem { root: root.clone(), moves: line[..at].to_vec(), depth: Some(depth), stop_at, fresh: false, isolated: false, sweep: None, descend: None, walks: None });
+            case.items.push(DItem { root: root.clone(), moves: line[..at].to_vec(), depth: Some(depth), stop_at, pre_stopped: false, fresh: false, isolated: false, sweep: None, descend: None, walks: None });
             if rng.chance(1, 4) {
                 // follow the previous search into its own tree: a position the table holds an entry for
                 let mut d = ditem(&root, &[], Some(rng.range(1, max_depth_for(cls)) as u8), None);
@@ -412,8 +518,49 @@ pub fn walk_from(rng: &mut Rng, root: &str, pre: &[String], n: u64) -> Vec<Strin
     out
 }
 
+/// A game line that ends in a repetition shuffle: `pre_len` random plies, then two reversible moves played back and
+/// forth, `total_shuffle` plies in all (4 = back at the start, 5 = the first move again, ...). None if no reversible
+/// pair was found.
+pub fn shuffle_line(rng: &mut Rng, root: &str, pre_len: u64, total_shuffle: usize) -> Option<Vec<String>> {
+    let mut line = walk(rng, root, pre_len);
+    let mut p = crate::gui::root_pos(root)?;
+    for m in &line {
+        p.play(m);
+    }
+    let rev = |m: &str| format!("{}{}", &m[2..4], &m[0..2]);
+    for _ in 0..30 {
+        let l1 = p.legal_moves();
+        if l1.is_empty() {
+            return None;
+        }
+        let m1 = rng.pick(&l1).clone();
+        if m1.len() != 4 {
+            continue;
+        }
+        let mut q = p.clone();
+        q.play(&m1);
+        let l2 = q.legal_moves();
+        if l2.is_empty() {
+            continue;
+        }
+        let m2 = rng.pick(&l2).clone();
+        if m2.len() != 4 {
+            continue;
+        }
+        let cycle = [m1.clone(), m2.clone(), rev(&m1), rev(&m2)];
+        let mut t = p.clone();
+        if cycle.iter().all(|m| t.play(m)) && t.placement() == p.placement() && t.castling() == p.castling() {
+            for i in 0..total_shuffle {
+                line.push(cycle[i % 4].clone());
+            }
+            return Some(line);
+        }
+    }
+    None
+}
+
 fn ditem(root: &str, moves: &[String], depth: Option<u8>, stop_at: Option<u64>) -> DItem {
-    DItem { root: root.to_string(), moves: moves.to_vec(), depth, stop_at, fresh: false, isolated: false, sweep: None, descend: None, walks: None }
+    DItem { root: root.to_string(), moves: moves.to_vec(), depth, stop_at, pre_stopped: false, fresh: false, isolated: false, sweep: None, descend: None, walks: None }
 }
 
 fn direct_params(case: &mut Case, max_polls: u64) {
@@ -566,6 +713,16 @@ pub fn gen_c08(seed: u64, thorough: bool) -> Case {
         let root = r.fen.to_string();
         let pre_n = if rng.chance(1, 2) { 0 } else { rng.below(8) };
         let pre = walk(&mut rng, &root, pre_n);
+        let mut pre = pre;
+        if rng.chance(1, 5) {
+            // the position comes with a repetition shuffle of 4..10 plies in its history (root repetition filter)
+            let pl = rng.below(3);
+            let ts = rng.range(4, 10) as usize;
+            if let Some(l) = shuffle_line(&mut rng, &root, pl, ts) {
+                pre = l;
+                case.family = "direct-depth-after-deeper-entry/shuffle-history".into();
+            }
+        }
         let class = if pre.len() > 4 { r.class.max(1) } else { r.class };
         let dmax = max_depth_for(class);
         let d = rng.range(1, dmax) as u8;
@@ -842,7 +999,7 @@ pub fn gen_c19(seed: u64, _thorough: bool) -> Case {
     let pre_n = if irng.chance(1, 2) { 0 } else { irng.below(10) };
     let pre = walk(&mut irng, &root, pre_n);
     let class = if pre.len() > 4 { r.class.max(1) } else { r.class };
-    let depth = irng.range(1, max_depth_for(class).min(4));
+    let depth = if irng.chance(1, 4) && class != 3 { irng.range(4, 5) } else { irng.range(1, max_depth_for(class).min(4)) };
     let mut rng = Rng::new(seed, 0x1919);
     let mut case = Case::new("C19", "", seed, Mode::Session);
     case.tags.push(format!("c19root={}", root));
@@ -867,7 +1024,27 @@ pub fn gen_c19(seed: u64, _thorough: bool) -> Case {
             swarm_params(&mut rng, &mut case);
         }
     }
-    if pert == 6 {
+    if pert == 5 {
+        // deeper searches on both sides of the reset: state that only a deep search builds up (ordering heuristics) must not
+        // survive `ucinewgame` either; the new game may be longer or shorter than the old one
+        case.family = "deep-prior-history-then-ucinewgame".into();
+        case.params.tt_cap = 1024;
+        let mids = ["startpos", "italian", "sicilian-b", "rook-endgame", "castle-only", "minor-endgame", "perft3", "KBNK", "pawn-wall"];
+        let hn = *rng.pick(&mids);
+        let hr = ROOTS.iter().find(|x| x.name == hn).unwrap();
+        let hl = rng.below(4);
+        let hpre = if rng.chance(1, 2) { pre.iter().take(hl as usize).cloned().collect() } else { walk(&mut rng, &root_cmd(hr), hl) };
+        let hroot = if rng.chance(1, 2) { root.clone() } else { root_cmd(hr) };
+        let hpre = if hroot == root { hpre } else { walk(&mut rng, &hroot, hl) };
+        case.push(GK::NewGame { root: hroot, pre: hpre });
+        for _ in 0..rng.range(1, 2) {
+            case.push(GK::PosCur);
+            case.raw(format!("go depth {}", rng.range(4, 6)));
+            case.push(GK::AwaitBest);
+            case.push(GK::Advance { best: true, replies: vec![rng.next() as u32] });
+        }
+        case.raw("ucinewgame");
+    } else if pert == 6 {
         // a timed search that is stopped long before its budget: the sleeping timer of that search wakes up in the middle
         // of the item's search and must not touch it
         case.family = "stale-timer-fires-during-search".into();
@@ -1010,7 +1187,11 @@ pub fn gen_c15(seed: u64, thorough: bool) -> Case {
             2 => rng.range(400, 520),
             _ => rng.range(200, 398),
         };
-        let moves = long_walk(&mut rng, r.fen, len);
+        let mut moves = long_walk(&mut rng, r.fen, len);
+        if rng.chance(1, 4) {
+            // the list ends in a well-formed move that is not legal there: `position` leaves through its error path
+            moves.push((*rng.pick(&["e2e5", "a1a1", "h7h5", "e1g1", "b8c6"])).to_string());
+        }
         case.push(GK::NewGame { root: root_cmd(r), pre: moves });
         case.push(GK::PosCur);
         // half of the runs are left running long enough for the iteration depth to pass 200 on bare kings
@@ -1126,6 +1307,8 @@ pub fn gen(prop: &str, seed: u64, thorough: bool) -> Case {
                 c.params.fair = 400;
                 c.params.oversleep_max = 0;
                 c
+            } else if seed % 16 == 7 || seed % 16 == 3 {
+                gen_chaos("C14", seed)
             } else {
                 gen_session("C14", seed, 0, true)
             }
